@@ -1504,6 +1504,143 @@ theorem C16_append_exact_concat_partial {fuel : Nat} {e : Term} {es : List Term}
     exact hr
 
 
+/-! ## arg/3, =../2, nth0/3, nth1/3 on arbitrary (also non-ground) data
+
+  Here the call is unified with possibly non-ground data, which goes through the Robinson unifier
+  of the model.  `UnifyDefined a b` says that this unification finished within its fuel (it always
+  does when one side is ground; the fuel is generous, the driver never ran out of it); under it the
+  unifier is proved to return a most general unifier (`unifyM_mgu`). -/
+
+/-- arg/3 in full: any index, any compound term, any pattern for the argument -/
+theorem C16_arg_exact {n t a : Term} {ans : Answers}
+    (hd : ∀ f as i e, t = .app f as → n = .int i → as.toList[(i - 1).toNat]? = some e → UnifyDefined a e)
+    (h : Rel.arg n t a = .ok ans) : ExactInst argT [n, t, a] ans := by
+  unfold Rel.arg at h
+  simp only at h
+  split at h
+  · cases h
+  · rename_i f as
+    split at h
+    · cases h
+    · rename_i nv
+      split at h
+      · rename_i hout
+        cases h
+        apply exactInst_nil
+        rintro t' hr ⟨σ, rfl⟩
+        simp only [List.map, substT_int, substT, argT, toList_substA] at hr
+        obtain ⟨h1, h2⟩ := hr
+        have := (List.getElem?_eq_some_iff.mp h2).1
+        simp only [List.length_map, Args.length_toList] at this
+        simp only [Int.ofNat_eq_natCast] at hout
+        omega
+      · rename_i hin
+        split at h
+        · cases h
+        · rename_i hpos
+          split at h
+          · rename_i e he
+            cases h
+            apply exactInst_unifyAns_general (hd f as nv e rfl rfl he)
+            · intro σ hσ
+              simp only [List.map, substT_int, substT, argT, toList_substA, List.getElem?_map, he,
+                Option.map_some, hσ]
+              exact ⟨by omega, trivial⟩
+            · intro σ hr
+              simp only [List.map, substT_int, substT, argT, toList_substA, List.getElem?_map, he,
+                Option.map_some] at hr
+              simpa using hr.2.symm
+          · rename_i hnone
+            cases h
+            have := List.getElem?_eq_none_iff.mp hnone
+            simp only [Args.length_toList] at this
+            simp only [Int.ofNat_eq_natCast] at hin
+            omega
+    · cases h
+  · cases h
+
+/-- =../2 decomposing any compound term (ground or not) against any list pattern -/
+theorem C16_univ_exact_compound {f : String} {as : Args} {l : Term} {ans : Answers}
+    (hwf : 0 < as.length) (hd : UnifyDefined l (Term.list (.atom f :: as.toList)))
+    (h : Rel.univ (.app f as) l = .ok ans) : ExactInst univT [.app f as, l] ans := by
+  unfold Rel.univ at h
+  simp only at h
+  split at h
+  · cases h
+  · cases h
+    apply exactInst_unifyAns_general hd
+    · intro σ hσ
+      simp only [List.map, substT, univT, length_substA, hwf, true_and, toList_substA, hσ, substT_list]
+      simp [substT, Term.nilT]
+    · intro σ hr
+      simp only [List.map, substT, univT, length_substA, toList_substA] at hr
+      rw [hr.2, substT_list]
+      simp [substT, Term.nilT]
+
+/-- nth0/3, nth1/3 in full: lists with arbitrary (also non-ground) elements, index bound or unbound,
+    any element pattern; with a bound index the list may be partial behind the element -/
+theorem C16_nth_exact {base : Int} {n list elem : Term} {ans : Answers}
+    (hd : ∀ i e, list.spine.1[i]? = some e →
+      UnifyDefined (tuple [n, elem]) (tuple [.int (base + Int.ofNat i), e]) ∧ UnifyDefined elem e)
+    (h : Rel.nth base n list elem = .ok ans) :
+    ExactInst (nthT base) [n, list, elem] ans := by
+  unfold Rel.nth at h
+  simp only at h
+  have hspine : ∀ σ : Nat → Term, ∀ i, i < list.spine.1.length →
+      (substT σ list).spine.1[i]? = (list.spine.1[i]?).map (substT σ) := by
+    intro σ i hi
+    conv => lhs; rw [← list_spine list, substT_list, spine_list]
+    simp only
+    rw [List.getElem?_append_left (by simpa using hi), List.getElem?_map]
+  split at h
+  · rename_i v
+    split at h
+    · cases h
+    · rename_i hproper
+      cases h
+      have hl : list = Term.list list.spine.1 := list_eq_of_spine rfl (listErr_false_none hproper)
+      have := nth_var_general (base := base) (v := v) (es := list.spine.1) (elem := elem)
+        (fun i e he => (hd i e he).1)
+      rw [← hl] at this
+      exact this
+  · rename_i nv
+    split at h
+    · rename_i hlt
+      cases h
+      apply exactInst_nil
+      rintro t hr ⟨σ, rfl⟩
+      simp only [List.map, substT_int, nthT, Relations.nth] at hr
+      omega
+    · rename_i hge
+      split at h
+      · rename_i e he
+        cases h
+        have hi := (List.getElem?_eq_some_iff.mp he).1
+        apply exactInst_unifyAns_general (hd _ e he).2
+        · intro σ hσ
+          simp only [List.map, substT_int, nthT, Relations.nth, hspine σ _ hi, he, Option.map_some, hσ, and_true]
+          omega
+        · intro σ hr
+          simp only [List.map, substT_int, nthT, Relations.nth, hspine σ _ hi, he, Option.map_some] at hr
+          simpa using hr.2.symm
+      · rename_i hnone
+        split at h
+        · cases h
+        · rename_i hproper
+          cases h
+          have hl : list = Term.list list.spine.1 := list_eq_of_spine rfl (listErr_false_none hproper)
+          apply exactInst_nil
+          rintro t hr ⟨σ, rfl⟩
+          simp only [List.map, substT_int, nthT, Relations.nth] at hr
+          have hsp : (substT σ list).spine.1 = list.spine.1.map (substT σ) := by
+            conv => lhs; rw [hl, substT_list]
+            have : substT σ Term.nilT = Term.nilT := by simp [Term.nilT, substT]
+            rw [this, spine_list_nil]
+          rw [hsp, List.getElem?_map, hnone] at hr
+          exact absurd hr.2 (by simp)
+  · cases h
+
+
 /-! ## further "consequently" corollaries -/
 
 theorem C16_atom_chars_monotone {a l a' l' : Term} {ans ans' : Answers}
@@ -1538,20 +1675,7 @@ theorem C16_monotone_inst {R : List Term → Prop} {args args' : List Term} {ans
   ⟨fun t' ht' => h.complete t' (h'.sound t' ht').1 (hi.trans (h'.sound t' ht').2),
    fun t hr hi' => h'.complete t hr hi'⟩
 
-/-! ## open statements (full strength; proved above in the `_partial` form, i.e. on ground data) -/
-
-/-- arg/3 on arbitrary (also non-ground) terms -/
-def C16_arg_exact_statement : Prop :=
-  ∀ (n t a : Term) (ans : Answers), (∀ f, t ≠ .app f .nil) → Rel.arg n t a = .ok ans → ExactInst argT [n, t, a] ans
-
-/-- =../2 decomposing arbitrary (also non-ground) compound terms -/
-def C16_univ_exact_statement : Prop :=
-  ∀ (t l : Term) (ans : Answers), (∀ f, t ≠ .app f .nil) → Rel.univ t l = .ok ans → ExactInst univT [t, l] ans
-
-/-- nth0/nth1 on lists with arbitrary (also non-ground) elements -/
-def C16_nth_exact_statement : Prop :=
-  ∀ (base : Int) (n list elem : Term) (ans : Answers), Rel.nth base n list elem = .ok ans →
-    ExactInst (nthT base) [n, list, elem] ans
+/-! ## open statements (completeness / exactly-once of the clause-defined predicates; soundness is proved above) -/
 
 /-- member/2: completeness (every member is enumerated; `fuel` = length of the longest derivation) -/
 def C16_member_complete_statement : Prop :=
